@@ -469,6 +469,9 @@ static Space make_space(const std::string& id) {
     S.key_last = (id == "c12" || g_tier);  // registry code is where call-order state would live: keep states apart by their last operation (C16 quick: plain observation)
     if (id == "c16" || id == "c12x") {  // misuse operations from every state
       for (int r = 0; r < 2; r++) { S.ops.push_back(opSel(r, "nosuch")); S.ops.push_back(opInit(r, "c", "no_such_solution")); S.ops.push_back(opInit(r, "a", "euler_1dd")); }
+      // a handle spelled like the catalogue name of a solution some handle may hold: unknown handle while unregistered (fatal), an ordinary handle once registered (thorough)
+      for (int r = 0; r < 2; r++) for (const char* s : {"euler_1d", "heateq_2d_steady_const"}) S.ops.push_back(opSel(r, s));
+      if (g_tier) S.ops.push_back(opInit(0, "euler_1d", "heateq_2d_steady_const"));
     }
   } else if (id == "c12v") {
     // three handles, two solution types that own vector parameters (heap-allocated per instance): isolation of vectors, re-init resets them
